@@ -30,7 +30,9 @@ def meta(tier, seed):
                   "binarizer invocations during training equals the number of observations",
         "bounds": {"rows_max": 3 if tier == "quick" else 4, "row_alphabet": ROWS, "binarizers": BINS,
                    "neighbourhood_policies": NPS_, "variants": ["plain", "add_arm(3, new binarizer) after the first call",
-                                "a zero-row partial_fit after the first call (up to 2 rows)"],
+                                "a zero-row partial_fit after the first call (up to 2 rows)",
+                                "no binarizer at construction, binary first call, add_arm(3, binarizer), further calls",
+                                "the same with add_arm(3, binarizer) as the last call before the queries (up to 2 rows)"],
                    "n_jobs": "1; additionally 2 (joblib model, default schedule) with up to 3 rows for %s" % (
                        ["none", "rad", "tree"] if tier == "quick" else NPS_)},
         "assumptions": [],
@@ -57,16 +59,33 @@ def build_ops(seq, comp, b, variant):
     fn = ops.BINARIZERS[b]
     sub, twin = [], []
     cur = fn
-    nontrivial = variant in ("add", "empty")
+    nontrivial = variant in ("add", "empty", "install", "install_end")
     rows = list(seq)
     if variant == "add" and len(comp) >= 2:
         rows[-1] = (3, rows[-1][1], rows[-1][2])
+    if variant == "install_end":
+        cur = None
+    if variant == "install":
+        # the bandit starts WITHOUT a binarizer and observes binary rewards; add_arm(3, b) installs b for the
+        # subsequent observations only: the rewards stored so far are what they are
+        rows[-1] = (3, rows[-1][1], rows[-1][2])
+        cur = None
     for i, (a, e) in enumerate(comp):
         chunk = rows[a:e]
         kind = "fit" if i == 0 else "partial_fit"
         d = [r[0] for r in chunk]
         x = [list(r[1]) for r in chunk]
         raw = [r[2] for r in chunk]
+        if cur is None:
+            raw = [1 if rv >= 1 else 0 for rv in raw]
+            conv = list(raw)
+            sub.append([kind, d, raw, x])
+            twin.append([kind, d, conv, x])
+            if (i == 0 and variant == "install") or (i == len(comp) - 1 and variant == "install_end"):
+                sub.append(["add_arm", 3, b])       # install_end: the bandit is queried right after the installation
+                twin.append(["add_arm", 3])
+                cur = fn
+            continue
         conv = [int(bool(cur(arm, rv))) for arm, rv in zip(d, raw)]
         for arm, rv, cv in zip(d, raw, conv):
             if int(bool(cur(arm, cv))) != cv:
@@ -105,7 +124,7 @@ def judge(nn, b, seed, seq, comp, variant, n_jobs=1):
 
 def _judge(nn, b, seed, seq, comp, variant, n_jobs):
     """-> (messages, nontrivial) | None if the sequence is not a valid training history for this policy"""
-    cfg_s = A.config(["ThompsonSampling", {"binarizer": b}], nn, seed=seed, n_jobs=n_jobs)
+    cfg_s = A.config(["ThompsonSampling", {} if variant.startswith("install") else {"binarizer": b}], nn, seed=seed, n_jobs=n_jobs)
     cfg_t = A.config(["ThompsonSampling", {}], nn, seed=seed, n_jobs=n_jobs)
     sub_ops, twin_ops, nontrivial = build_ops(seq, comp, b, variant)
     try:
@@ -118,7 +137,8 @@ def _judge(nn, b, seed, seq, comp, variant, n_jobs):
     except Exception as e:                                    # noqa: BLE001
         return ["with a binarizer the history raises %s: %s; the twin on converted rewards accepts it" % (
             type(e).__name__, str(e)[:150])], nontrivial
-    calls, rows = ops.BIN_CALLS[0], sum(len(o[1]) for o in sub_ops if o[0] in ("fit", "partial_fit"))
+    first = next((i for i, o in enumerate(sub_ops) if o[0] == "add_arm"), 0) if variant.startswith("install") else 0
+    calls, rows = ops.BIN_CALLS[0], sum(len(o[1]) for o in sub_ops[first:] if o[0] in ("fit", "partial_fit"))
     if calls != rows:
         # a binarizer need not be a pure function (adaptive thresholds, budgets): the number of invocations is observable
         return ["training on %d observations invoked the binarizer %d times" % (rows, calls)], nontrivial
@@ -142,9 +162,15 @@ def run_shard(shard):
             if seq[0] != ROWS[shard["first"]]:
                 continue
             for comp in A.compositions(n):
-                for variant in ("plain", "add", "empty"):
+                for variant in ("plain", "add", "empty", "install", "install_end"):
+                    if variant == "install_end" and n > 2:
+                        continue
                     if variant == "empty" and (n > 2 or nn in ("lsh",)):
                         continue        # LSHNearest rejects a zero-row batch (division by zero), with or without binarizer
+                    if variant == "install" and len(comp) != 2:
+                        continue
+                    if nj > 1 and variant not in ("plain", "add"):
+                        continue        # the other variants are about call order, not about partitioning
                     res = judge(nn, b, seed, list(seq), comp, variant, nj)
                     if res is None:
                         acc.skip("not a valid training history for this policy (too few rows for k / clusters)")
